@@ -129,13 +129,21 @@ def cross_run_state(ctx, py: PyRepo):
         # class-level mutable attributes (shared by all instances)
         for c in mi.classes.values():
             for node in c.node.body:
-                if isinstance(node, ast.Assign) and isinstance(node.targets[0], ast.Name):
+                tgt = node.targets[0] if isinstance(node, ast.Assign) else (node.target if isinstance(node, ast.AnnAssign) else None)
+                if isinstance(tgt, ast.Name) and getattr(node, 'value', None) is not None:
                     v = node.value
                     if isinstance(v, (ast.List, ast.Dict, ast.Set)) or (isinstance(v, ast.Call) and isinstance(v.func, ast.Name) and v.func.id in MUTABLE_CTORS):
-                        attr = node.targets[0].id
-                        written = any(isinstance(x, ast.Call) and isinstance(x.func, ast.Attribute) and isinstance(x.func.value, ast.Attribute)
-                                      and x.func.value.attr == attr and x.func.attr in ('append', 'add', 'update', 'extend', 'setdefault')
-                                      for f in c.methods.values() for x in ast.walk(f))
+                        attr = tgt.id
+
+                        def _is_attr(e):
+                            return isinstance(e, ast.Attribute) and e.attr == attr
+                        written = any(
+                            (isinstance(x, ast.Call) and isinstance(x.func, ast.Attribute) and _is_attr(x.func.value)
+                             and x.func.attr in ('append', 'add', 'update', 'extend', 'setdefault', 'pop', 'clear', 'insert', 'remove', 'discard'))
+                            or (isinstance(x, (ast.Assign, ast.AugAssign, ast.Delete)) and any(
+                                isinstance(t, ast.Subscript) and _is_attr(t.value)
+                                for t in (x.targets if isinstance(x, (ast.Assign, ast.Delete)) else [x.target])))
+                            for f in c.methods.values() for x in ast.walk(f))
                         shadowed = any(isinstance(x, ast.Assign) and any(isinstance(t, ast.Attribute) and t.attr == attr for t in x.targets)
                                        for f in c.methods.values() if f.name == '__init__' for x in ast.walk(f))
                         if written and not shadowed:
